@@ -230,24 +230,22 @@ Qed.
 Lemma row_reset_addr h r : r_addr (row_reset h r) = if r_end r then 0 else r_addr r.
 Proof. unfold row_reset. destruct (r_end r); reflexivity. Qed.
 
-Definition nr_post (h : header) (r : row) (inp : list byte) (dropped : bool)
-  (res : nr_out * lr_state * bool) : Prop :=
-  let '(out, st', d') := res in
+Definition nr_post (h : header) (r : row) (inp : list byte) (inseq : bool) (res : nr_out * lr_state) : Prop :=
+  let '(out, st') := res in
   out <> NPanic /\ out <> NFuel /\
   r_addr (st_row st') <= amask h /\
-  (d' = false -> r_addr r <= r_addr (st_row st')) /\
-  (dropped = true -> d' = true) /\
+  (inseq = true -> r_addr r <= r_addr (st_row st')) /\
   sfx (st_inp st') inp /\
-  (out = NRow -> (length (st_inp st') < length inp)%nat /\ r_tomb (st_row st') = false) /\
+  (out = NRow -> (length (st_inp st') < length inp)%nat /\ st_inseq st' = negb (r_end (st_row st'))) /\
   (forall e, out = NErr e -> (length (st_inp st') < length inp)%nat) /\
   (out = NNone -> st_inp st' = []).
 
 Lemma next_row_loop_post dbg be resumed h : hdr_ok h ->
-  forall fuel r inp added dropped,
+  forall fuel r inp added inseq,
   r_addr r <= amask h -> (length inp < fuel)%nat ->
-  nr_post h r inp dropped (next_row_loop fuel dbg be resumed h r inp added dropped).
+  nr_post h r inp inseq (next_row_loop fuel dbg be resumed h r inp added inseq).
 Proof.
-  intros Hh. induction fuel as [|f IH]; intros r inp added dropped Ha Hf; [lia|].
+  intros Hh. induction fuel as [|f IH]; intros r inp added inseq Ha Hf; [lia|].
   cbn [next_row_loop].
   destruct inp as [|b input].
   { cbn. repeat split; try discriminate; auto; try (cbn [length] in *; lia). apply sfx_refl. }
@@ -262,85 +260,94 @@ Proof.
   cbn [fst] in X. destruct X as [X1 X2].
   destruct x as [| |e].
   - (* XRow *)
-    destruct (r_tomb r') eqn:Et.
+    destruct (r_tomb r' && negb (r_end r' && inseq)) eqn:Et.
     + assert (A : r_addr (row_reset h r') <= amask h).
       { rewrite row_reset_addr. destruct (r_end r'); [lia|exact X2]. }
-      specialize (IH (row_reset h r') rest added (dropped || r_end r') A ltac:(lia)).
+      specialize (IH (row_reset h r') rest added inseq A ltac:(lia)).
       unfold nr_post in *.
-      destruct (next_row_loop f dbg be resumed h (row_reset h r') rest added (dropped || r_end r')) as [[out st'] d'].
-      destruct IH as (I1 & I2 & I3 & I4 & I5 & I6 & I7 & I8 & I9).
-      repeat split; auto.
-      * intros Ed. specialize (I4 Ed). rewrite row_reset_addr in I4.
+      destruct (next_row_loop f dbg be resumed h (row_reset h r') rest added inseq) as [out st'].
+      destruct IH as (I1 & I2 & I3 & I4 & I6 & I7 & I8 & I9).
+      split; [exact I1|]. split; [exact I2|]. split; [exact I3|]. split.
+      { intros Ei. specialize (I4 Ei). rewrite row_reset_addr in I4. subst inseq.
         destruct (r_end r') eqn:Ee.
-        -- rewrite orb_true_r in I5. rewrite I5 in Ed by reflexivity. discriminate.
-        -- lia.
-      * intros ->. apply I5. reflexivity.
-      * eapply sfx_trans; eassumption.
-      * apply I7 in H as [? ?]. cbn [length] in *; lia.
-      * apply I7 in H as [? ?]. assumption.
-      * intros e0 He. specialize (I8 e0 He). cbn [length] in *; lia.
+        - rewrite andb_true_r in Et. cbn in Et. rewrite andb_false_r in Et. discriminate.
+        - lia. }
+      split; [eapply sfx_trans; eassumption|]. split.
+      { intros E. destruct (I7 E) as [? ?]. split; [cbn [length]; lia|assumption]. }
+      split; [intros e0 He; specialize (I8 e0 He); cbn [length]; lia|exact I9].
     + cbn. repeat split; try discriminate; auto; try (cbn [length] in *; lia).
   - (* XNoRow *)
-    specialize (IH r' rest (add_file resumed i added) dropped X2 ltac:(lia)).
+    specialize (IH r' rest (add_file resumed i added) inseq X2 ltac:(lia)).
     unfold nr_post in *.
-    destruct (next_row_loop f dbg be resumed h r' rest (add_file resumed i added) dropped) as [[out st'] d'].
-    destruct IH as (I1 & I2 & I3 & I4 & I5 & I6 & I7 & I8 & I9).
-    repeat split; auto.
-    * intros Ed. specialize (I4 Ed). lia.
-    * eapply sfx_trans; eassumption.
-    * apply I7 in H as [? ?]. cbn [length] in *; lia.
-    * apply I7 in H as [? ?]. assumption.
-    * intros e0 He. specialize (I8 e0 He). cbn [length] in *; lia.
+    destruct (next_row_loop f dbg be resumed h r' rest (add_file resumed i added) inseq) as [out st'].
+    destruct IH as (I1 & I2 & I3 & I4 & I6 & I7 & I8 & I9).
+    split; [exact I1|]. split; [exact I2|]. split; [exact I3|]. split.
+    { intros Ei. specialize (I4 Ei). lia. }
+    split; [eapply sfx_trans; eassumption|]. split.
+    { intros E. destruct (I7 E) as [? ?]. split; [cbn [length]; lia|assumption]. }
+    split; [intros e0 He; specialize (I8 e0 He); cbn [length]; lia|exact I9].
   - (* XErr *)
     cbn. repeat split; try discriminate; auto; try (cbn [length] in *; lia).
 Qed.
 
 Lemma next_row_post dbg be resumed h st : hdr_ok h -> r_addr (st_row st) <= amask h ->
-  nr_post h (row_reset h (st_row st)) (st_inp st) false (next_row dbg be resumed h st).
+  nr_post h (row_reset h (st_row st)) (st_inp st) (st_inseq st) (next_row dbg be resumed h st).
 Proof.
   intros Hh Ha. unfold next_row. apply next_row_loop_post; auto.
   rewrite row_reset_addr. destruct (r_end (st_row st)); lia.
 Qed.
 
 (* ---------------------------------------------------------------- iterating over all rows *)
-(* `chain h a l`: starting from address floor `a`, every row is inside the address size, is not a
-   tombstone, and is at or above the floor unless an end_sequence was swallowed just before it *)
-Fixpoint chain (h : header) (a : N) (l : list (row * bool)) : Prop :=
+(* `chain h a l`: starting from address floor `a` (0 at the start of a sequence), every row is at or
+   above the floor and inside the address size; an end_sequence row resets the floor *)
+Fixpoint chain (h : header) (a : N) (l : list row) : Prop :=
   match l with
   | [] => True
-  | p :: tl =>
-      (snd p = false -> a <= r_addr (fst p)) /\ r_addr (fst p) <= amask h /\ r_tomb (fst p) = false /\
-      chain h (if r_end (fst p) then 0 else r_addr (fst p)) tl
+  | r :: tl => a <= r_addr r /\ r_addr r <= amask h /\ chain h (if r_end r then 0 else r_addr r) tl
   end.
+
+Definition floor_of (st : lr_state) : N := if st_inseq st then r_addr (st_row st) else 0.
+Definition st_ok (h : header) (st : lr_state) : Prop :=
+  r_addr (st_row st) <= amask h /\ (st_inseq st = true -> r_end (st_row st) = false).
 
 Lemma rows_loop_post dbg be resumed h : hdr_ok h ->
   forall fuel st l s stf,
-  r_addr (st_row st) <= amask h -> (length (st_inp st) < fuel)%nat ->
+  st_ok h st -> (length (st_inp st) < fuel)%nat ->
   rows_loop fuel dbg be resumed h st = (l, s, stf) ->
-  s <> SPanic /\ s <> SFuel /\ chain h (r_addr (row_reset h (st_row st))) l /\
-  r_addr (st_row stf) <= amask h.
+  s <> SPanic /\ s <> SFuel /\ chain h (floor_of st) l /\ r_addr (st_row stf) <= amask h.
 Proof.
-  intros Hh. induction fuel as [|f IH]; intros st l s stf Ha Hf H; [lia|].
+  intros Hh. induction fuel as [|f IH]; intros st l s stf [Ha Hi] Hf H; [lia|].
   cbn [rows_loop] in H.
   pose proof (next_row_post dbg be resumed h st Hh Ha) as P. unfold nr_post in P.
-  destruct (next_row dbg be resumed h st) as [[out st'] d].
-  destruct P as (I1 & I2 & I3 & I4 & I5 & I6 & I7 & I8 & I9).
+  destruct (next_row dbg be resumed h st) as [out st'].
+  destruct P as (I1 & I2 & I3 & I4 & I6 & I7 & I8 & I9).
   destruct out; try congruence.
   - destruct (I7 eq_refl) as [L T].
     destruct (rows_loop f dbg be resumed h st') as [[rs s'] stf'] eqn:E.
     inversion H; subst; clear H.
-    destruct (IH st' rs s stf I3 ltac:(lia) E) as (J1 & J2 & J3 & J4).
-    repeat split; auto. rewrite row_reset_addr in J3. exact J3.
+    assert (Ok' : st_ok h st').
+    { split; [exact I3|]. rewrite T. destruct (r_end (st_row st')); [discriminate|reflexivity]. }
+    destruct (IH st' rs s stf Ok' ltac:(lia) E) as (J1 & J2 & J3 & J4).
+    split; [exact J1|]. split; [exact J2|]. split; [|exact J4].
+    cbn [chain]. split.
+    { unfold floor_of. destruct (st_inseq st) eqn:Ei; [|lia].
+      specialize (I4 eq_refl). rewrite row_reset_addr, (Hi eq_refl) in I4. exact I4. }
+    split; [exact I3|].
+    unfold floor_of in J3. rewrite T in J3. destruct (r_end (st_row st')); exact J3.
   - inversion H; subst. repeat split; auto; discriminate.
   - inversion H; subst. repeat split; auto; discriminate.
 Qed.
 
-Lemma rows_ghost_post dbg be h l s stf : hdr_ok h ->
-  rows_ghost dbg be h = (l, s, stf) -> s <> SPanic /\ s <> SFuel /\ chain h 0 l.
+Lemma st_init_ok h inp : st_ok h (st_init h inp).
+Proof. split; cbn; [lia|discriminate]. Qed.
+
+Lemma rows_full_post dbg be h l s stf : hdr_ok h ->
+  rows_full dbg be h = (l, s, stf) -> s <> SPanic /\ s <> SFuel /\ chain h 0 l.
 Proof.
-  intros Hh H. unfold rows_ghost in H.
-  eapply rows_loop_post in H; eauto; cbn [st_row st_inp row_new r_addr] in *; try lia.
-  destruct H as (H1 & H2 & H3 & _). repeat split; auto.
+  intros Hh H. unfold rows_full in H.
+  destruct (rows_loop_post dbg be false h Hh (S (length (h_program h))) (st_init h (h_program h)) _ _ _
+              (st_init_ok h _) ltac:(cbn; lia) H) as (H1 & H2 & H3 & _).
+  repeat split; auto.
 Qed.
 
 (* consecutive elements of a list *)
@@ -349,68 +356,33 @@ Inductive adjacent {A} : list A -> A -> A -> Prop :=
 | adj_later z l x y : adjacent l x y -> adjacent (z :: l) x y.
 
 Lemma chain_adjacent h : forall l a p q,
-  chain h a l -> adjacent l p q -> r_end (fst p) = false -> snd q = false -> r_addr (fst p) <= r_addr (fst q).
+  chain h a l -> adjacent l p q -> r_end p = false -> r_addr p <= r_addr q.
 Proof.
   induction l as [|x l IH]; intros a p q C A; inversion A; subst.
-  - cbn [chain] in C. destruct C as (_ & _ & _ & C). cbn [chain] in C. destruct C as (C & _).
-    intros E1 E2. rewrite E1 in C. auto.
-  - cbn [chain] in C. destruct C as (_ & _ & _ & C). eapply IH; eauto.
+  - cbn [chain] in C. destruct C as (_ & _ & C). cbn [chain] in C. destruct C as (C & _).
+    intros E1. rewrite E1 in C. exact C.
+  - cbn [chain] in C. destruct C as (_ & _ & C). eapply IH; eauto.
 Qed.
 
-Lemma chain_bounded h : forall l a, chain h a l -> Forall (fun p => r_addr (fst p) <= amask h /\ r_tomb (fst p) = false) l.
+Lemma chain_bounded h : forall l a, chain h a l -> Forall (fun r => r_addr r <= amask h) l.
 Proof.
   induction l as [|x l IH]; intros a C; constructor.
   - cbn [chain] in C. tauto.
-  - cbn [chain] in C. destruct C as (_ & _ & _ & C). eapply IH; eauto.
+  - cbn [chain] in C. destruct C as (_ & _ & C). eapply IH; eauto.
 Qed.
 
-Lemma adjacent_map {A B} (f : A -> B) : forall l x y, adjacent (map f l) x y ->
-  exists p q, adjacent l p q /\ f p = x /\ f q = y.
-Proof.
-  induction l as [|a l IH]; intros x y H; [inversion H|].
-  destruct l as [|b l].
-  { inversion H; subst. match goal with A0 : adjacent [] _ _ |- _ => inversion A0 end. }
-  cbn [map] in H. inversion H; subst.
-  - exists a, b. repeat split. constructor.
-  - match goal with A0 : adjacent (f b :: map f l) _ _ |- _ =>
-      change (f b :: map f l) with (map f (b :: l)) in A0;
-      destruct (IH _ _ A0) as (p & q & J1 & J2 & J3) end.
-    exists p, q. repeat split; auto. now constructor.
-Qed.
-
-(* the known class: a tombstoned end_sequence row was dropped after a row of its sequence had been emitted *)
-Definition swallowed_end (l : list (row * bool)) : Prop :=
-  exists p q, adjacent l p q /\ r_end (fst p) = false /\ snd q = true.
-
+(* within a sequence (rows up to and including an end_sequence row) addresses never decrease *)
 Definition rows_monotone (rs : list row) : Prop :=
   forall r1 r2, adjacent rs r1 r2 -> r_end r1 = false -> r_addr r1 <= r_addr r2.
 
-(* Theorem material *)
-Lemma monotone_ghost dbg be h l s stf :
-  hdr_ok h -> rows_ghost dbg be h = (l, s, stf) ->
-  (forall p q, adjacent l p q -> r_end (fst p) = false -> snd q = false -> r_addr (fst p) <= r_addr (fst q)) /\
-  Forall (fun p => r_addr (fst p) <= amask h) l.
+Lemma chain_monotone h l a : chain h a l -> rows_monotone l /\ Forall (fun r => r_addr r <= amask h) l.
 Proof.
-  intros Hh H. destruct (rows_ghost_post _ _ _ _ _ _ Hh H) as (_ & _ & C). split.
-  - intros p q. eapply chain_adjacent; eauto.
-  - eapply Forall_impl; [|eapply chain_bounded; eauto]. cbn. tauto.
+  intros C. split; [intros r1 r2; eapply chain_adjacent; eauto|eapply chain_bounded; eauto].
 Qed.
 
-Lemma monotone_rows_unless_swallowed dbg be h l s stf :
-  hdr_ok h -> rows_ghost dbg be h = (l, s, stf) -> ~ swallowed_end l ->
-  rows_monotone (map fst l) /\ Forall (fun r => r_addr r <= amask h) (map fst l).
-Proof.
-  intros Hh H NS. destruct (monotone_ghost _ _ _ _ _ _ Hh H) as [M B]. split.
-  - intros r1 r2 A E. apply adjacent_map in A as (p & q & A & <- & <-).
-    destruct (snd q) eqn:Eq.
-    + exfalso. apply NS. exists p, q. auto.
-    + apply M; auto.
-  - rewrite Forall_map. exact B.
-Qed.
-
-Lemma rows_model_ghost dbg be h : rows_model dbg be h =
-  (map fst (fst (fst (rows_ghost dbg be h))), snd (fst (rows_ghost dbg be h))).
-Proof. unfold rows_model. destruct (rows_ghost dbg be h) as [[l s] stf]. reflexivity. Qed.
+Lemma rows_model_full dbg be h : rows_model dbg be h =
+  (fst (fst (rows_full dbg be h)), snd (fst (rows_full dbg be h))).
+Proof. unfold rows_model. destruct (rows_full dbg be h) as [[l s] stf]. reflexivity. Qed.
 
 (* ---------------------------------------------------------------- LineProgramHeader::parse establishes hdr_ok *)
 Ltac bo H := apply bind_ok in H as [? [? H]].
@@ -465,8 +437,8 @@ Proof.
   intros Hh. induction fuel as [|f IH]; intros st Ha Hf; [lia|].
   cbn [cont_loop].
   pose proof (next_row_post dbg be false h st Hh Ha) as P. unfold nr_post in P.
-  destruct (next_row dbg be false h st) as [[out st'] d].
-  destruct P as (I1 & I2 & I3 & I4 & I5 & I6 & I7 & I8 & I9).
+  destruct (next_row dbg be false h st) as [out st'].
+  destruct P as (I1 & I2 & I3 & I4 & I6 & I7 & I8 & I9).
   destruct out; try congruence.
   - destruct (I7 eq_refl) as [L T]. specialize (IH st' I3 ltac:(lia)).
     destruct (cont_loop f dbg be h st') as [es s]. exact IH.
@@ -482,8 +454,8 @@ Proof.
   intros Hh. induction fuel as [|f IH]; intros st ins start Ha Hf; [lia|].
   cbn [seq_loop].
   pose proof (next_row_post dbg be false h st Hh Ha) as P. unfold nr_post in P.
-  destruct (next_row dbg be false h st) as [[out st'] d].
-  destruct P as (I1 & I2 & I3 & I4 & I5 & I6 & I7 & I8 & I9).
+  destruct (next_row dbg be false h st) as [out st'].
+  destruct P as (I1 & I2 & I3 & I4 & I6 & I7 & I8 & I9).
   destruct out; try congruence; try (split; discriminate).
   destruct (I7 eq_refl) as [L T].
   destruct (r_end (st_row st')).
@@ -492,27 +464,46 @@ Proof.
   - apply IH; [exact I3|lia].
 Qed.
 
-Lemma init_state_ok h inp : r_addr (st_row (mk_st (row_new h) inp [])) <= amask h.
-Proof. cbn. lia. Qed.
-
 Lemma no_panic_all dbg be h : hdr_ok h ->
   (snd (rows_model dbg be h) <> SPanic /\ snd (rows_model dbg be h) <> SFuel) /\
   (snd (rows_cont dbg be h) <> SPanic /\ snd (rows_cont dbg be h) <> SFuel) /\
   (sequences dbg be h <> Panic /\ sequences dbg be h <> OutOfFuel).
 Proof.
   intros Hh. split; [|split].
-  - rewrite rows_model_ghost. cbn [snd].
-    destruct (rows_ghost dbg be h) as [[l s] stf] eqn:E. cbn.
-    destruct (rows_ghost_post _ _ _ _ _ _ Hh E) as (H1 & H2 & _). split; assumption.
-  - unfold rows_cont. apply cont_loop_post; [exact Hh|apply init_state_ok|cbn; lia].
-  - unfold sequences. apply seq_loop_post; [exact Hh|apply init_state_ok|cbn; lia].
+  - rewrite rows_model_full. cbn [snd].
+    destruct (rows_full dbg be h) as [[l s] stf] eqn:E. cbn.
+    destruct (rows_full_post _ _ _ _ _ _ Hh E) as (H1 & H2 & _). split; assumption.
+  - unfold rows_cont. apply cont_loop_post; [exact Hh|cbn; lia|cbn; lia].
+  - unfold sequences. apply seq_loop_post; [exact Hh|cbn; lia|cbn; lia].
 Qed.
 
-(* ---------------------------------------------------------------- the monotonicity clause fails at row level *)
+(* ---------------------------------------------------------------- the monotonicity clause, every input *)
+Lemma monotone_any_input_lemma dbg be h : hdr_ok h ->
+  rows_monotone (fst (rows_model dbg be h)) /\
+  Forall (fun r => r_addr r <= amask h) (fst (rows_model dbg be h)).
+Proof.
+  intros Hh. rewrite rows_model_full. cbn [fst].
+  destruct (rows_full dbg be h) as [[l s] stf] eqn:E. cbn [fst].
+  destruct (rows_full_post _ _ _ _ _ _ Hh E) as (_ & _ & C). eapply chain_monotone; eauto.
+Qed.
+
+Lemma monotone_any_unit_lemma dbg be asz0 bs h : 1 <= asz0 <= 8 ->
+  parse_header dbg be asz0 bs = Ok h ->
+  rows_monotone (fst (rows_model dbg be h)) /\
+  Forall (fun r => r_addr r <= amask h) (fst (rows_model dbg be h)) /\
+  snd (rows_model dbg be h) <> SPanic /\ snd (rows_model dbg be h) <> SFuel.
+Proof.
+  intros Hz H. pose proof (parse_header_ok _ _ _ _ _ H Hz) as Hh.
+  destruct (monotone_any_input_lemma dbg be h Hh) as [M B].
+  destruct (no_panic_all dbg be h Hh) as [[P1 P2] _]. repeat split; assumption.
+Qed.
+
+(* the program of the repaired defect (fixed: 9872ff0): set_address 0x1000; copy; set_address 0 (tombstone);
+   end_sequence; set_address 0x500; copy; end_sequence. The tombstoned end_sequence row is now returned
+   (at the last valid address), so the two sequences stay apart. *)
 Definition witness_header : header :=
   mk_header false 4 4 0 0 1 1 true (-5) 14 13
     [x00; x01; x01; x01; x01; x00; x00; x00; x01; x00; x00; x01] [] [] [] []
-    (* set_address 0x1000; copy; set_address 0; end_sequence; set_address 0x500; copy; end_sequence *)
     [x00; x05; x02; x00; x10; x00; x00;  x01;  x00; x05; x02; x00; x00; x00; x00;  x00; x01; x01;
      x00; x05; x02; x00; x05; x00; x00;  x01;  x00; x01; x01].
 
@@ -521,36 +512,11 @@ Proof. unfold hdr_ok, asz_ok; cbn. lia. Qed.
 
 Lemma witness_rows : forall dbg,
   map (fun r => (r_addr r, r_end r)) (fst (rows_model dbg false witness_header)) =
-  [(4096, false); (1280, false); (1280, true)].
+  [(4096, false); (4096, true); (1280, false); (1280, true)].
 Proof. intros [|]; vm_compute; reflexivity. Qed.
 
-Lemma monotone_rows_refuted_lemma :
-  exists dbg be h, hdr_ok h /\ ~ rows_monotone (fst (rows_model dbg be h)).
-Proof.
-  exists true, false, witness_header. split; [exact witness_hdr_ok|].
-  intros M.
-  assert (E : exists r1 r2 tl, fst (rows_model true false witness_header) = r1 :: r2 :: tl /\
-                               r_addr r1 = 4096 /\ r_addr r2 = 1280 /\ r_end r1 = false).
-  { vm_compute. eexists _, _, _. repeat split. }
-  destruct E as (r1 & r2 & tl & E & A1 & A2 & E1).
-  specialize (M r1 r2). rewrite E in M. specialize (M (adj_here _ _ _) E1). lia.
-Qed.
-
-Lemma adjacent_in {A} : forall (l : list A) x y, adjacent l x y -> In x l /\ In y l.
-Proof.
-  induction 1 as [x y l|z l x y Adj IH].
-  - split; [left; reflexivity|right; left; reflexivity].
-  - destruct IH. split; right; assumption.
-Qed.
-
-Lemma no_drop_no_swallow (l : list (row * bool)) : Forall (fun p => snd p = false) l -> ~ swallowed_end l.
-Proof.
-  intros F (p & q & A & _ & D). apply adjacent_in in A as [_ I].
-  rewrite Forall_forall in F. rewrite (F _ I) in D. discriminate.
-Qed.
-
-(* a non-trivial program outside the known class: set_address 0x1000; special 0x4b; advance_pc 3;
-   special 0x20; end_sequence; set_address 0x800; copy; end_sequence *)
+(* a non-trivial program: set_address 0x1000; special 0x4b; advance_pc 3; special 0x20; end_sequence;
+   set_address 0x800; copy; end_sequence *)
 Definition sample_header : header :=
   mk_header false 4 4 0 0 1 1 true (-5) 14 13
     [x00; x01; x01; x01; x01; x00; x00; x00; x01; x00; x00; x01] [] [] [] []
@@ -558,53 +524,9 @@ Definition sample_header : header :=
      x00; x05; x02; x00; x08; x00; x00;  x01;  x00; x01; x01].
 
 Lemma sample_rows : forall dbg,
-  map (fun p => (r_addr (fst p), r_line (fst p), r_end (fst p), snd p)) (fst (fst (rows_ghost dbg false sample_header))) =
-  [(4100, 2, false, false); (4104, 2, false, false); (4104, 2, true, false);
-   (2048, 1, false, false); (2048, 1, true, false)].
+  map (fun r => (r_addr r, r_line r, r_end r)) (fst (rows_model dbg false sample_header)) =
+  [(4100, 2, false); (4104, 2, false); (4104, 2, true); (2048, 1, false); (2048, 1, true)].
 Proof. intros [|]; vm_compute; reflexivity. Qed.
-
-Lemma sample_not_swallowed dbg : ~ swallowed_end (fst (fst (rows_ghost dbg false sample_header))).
-Proof. apply no_drop_no_swallow. destruct dbg; vm_compute; repeat constructor. Qed.
-
-(* statements in the shape used by Properties/C04.v *)
-Lemma monotone_unless_swallowed dbg be h : hdr_ok h ->
-  let l := fst (fst (rows_ghost dbg be h)) in
-  fst (rows_model dbg be h) = map fst l /\
-  (~ swallowed_end l ->
-   rows_monotone (fst (rows_model dbg be h)) /\
-   Forall (fun r => r_addr r <= amask h) (fst (rows_model dbg be h))).
-Proof.
-  intros Hh l. rewrite rows_model_ghost. cbn [fst]. split; [reflexivity|].
-  subst l. destruct (rows_ghost dbg be h) as [[l s] stf] eqn:E. cbn [fst].
-  intros NS. eapply monotone_rows_unless_swallowed; eauto.
-Qed.
-
-Lemma monotone_between_ends dbg be h : hdr_ok h ->
-  let l := fst (fst (rows_ghost dbg be h)) in
-  (forall p q, adjacent l p q -> r_end (fst p) = false -> snd q = false -> r_addr (fst p) <= r_addr (fst q)) /\
-  Forall (fun r => r_addr r <= amask h /\ r_tomb r = false) (fst (rows_model dbg be h)).
-Proof.
-  intros Hh l. subst l. rewrite rows_model_ghost. cbn [fst].
-  destruct (rows_ghost dbg be h) as [[l s] stf] eqn:E. cbn [fst].
-  destruct (rows_ghost_post _ _ _ _ _ _ Hh E) as (_ & _ & C). split.
-  - intros p q. eapply chain_adjacent; eauto.
-  - rewrite Forall_map. eapply chain_bounded; eauto.
-Qed.
-
-Lemma monotone_any_unit_lemma dbg be asz0 bs h : 1 <= asz0 <= 8 ->
-  parse_header dbg be asz0 bs = Ok h ->
-  let l := fst (fst (rows_ghost dbg be h)) in
-  (~ swallowed_end l -> rows_monotone (fst (rows_model dbg be h))) /\
-  Forall (fun r => r_addr r <= amask h) (fst (rows_model dbg be h)) /\
-  snd (rows_model dbg be h) <> SPanic /\ snd (rows_model dbg be h) <> SFuel.
-Proof.
-  intros Hz H l. pose proof (parse_header_ok _ _ _ _ _ H Hz) as Hh.
-  destruct (monotone_unless_swallowed dbg be h Hh) as [_ M].
-  destruct (monotone_between_ends dbg be h Hh) as [_ B].
-  destruct (no_panic_all dbg be h Hh) as [[P1 P2] _].
-  split; [intros NS; apply M; exact NS|]. split; [|split; assumption].
-  eapply Forall_impl; [|exact B]. cbn. tauto.
-Qed.
 
 Lemma parse_insn_consumes_lemma dbg be h inp i rest :
   parse_insn dbg be h inp = Ok (i, rest) ->
@@ -617,10 +539,3 @@ Proof. intros H1 H2 H3. exact (good_np _ _ (execute_good dbg h r i H1 H2 H3)). Q
 
 Lemma hdr_ok_examples : hdr_ok sample_header /\ hdr_ok witness_header.
 Proof. split; [unfold hdr_ok, asz_ok; cbn; repeat split; discriminate|exact witness_hdr_ok]. Qed.
-
-Lemma not_swallowed_sample dbg :
-  ~ swallowed_end (fst (fst (rows_ghost dbg false sample_header))) /\
-  map (fun p => (r_addr (fst p), r_line (fst p), r_end (fst p), snd p)) (fst (fst (rows_ghost dbg false sample_header))) =
-  [(4100, 2, false, false); (4104, 2, false, false); (4104, 2, true, false);
-   (2048, 1, false, false); (2048, 1, true, false)].
-Proof. split; [apply sample_not_swallowed|apply sample_rows]. Qed.
